@@ -288,7 +288,7 @@ func decodedStruct(w *World, fn *ssa.Function, depth int) (types.Type, token.Pos
 		if callee == nil || !w.inModule(callee) {
 			continue
 		}
-		if callee.Name() == "decodeConfig" || callee.Name() == "decodeStrategy" || strings.HasPrefix(callee.Name(), "decodeStrategy[") {
+		if isStructDecoder(callee) {
 			args := c.Common().Args
 			for _, a := range args {
 				v := stripConv(a)
@@ -329,8 +329,12 @@ func c20MechanismTypes(w *World) ([]mechType, []string) {
 			continue
 		}
 		for _, c := range callsIn(fn) {
+			// the registry function: a package-local function taking one function-typed argument
 			callee := c.Common().StaticCallee()
-			if callee == nil || callee.Name() != "registerTypeFactory" {
+			if callee == nil || fnPkgPath(callee) != p || len(c.Common().Args) != 1 {
+				continue
+			}
+			if sig, isFn := c.Common().Args[0].Type().Underlying().(*types.Signature); !isFn || sig.Params().Len() < 3 {
 				continue
 			}
 			fac := closureFn(c.Common().Args[0])
@@ -1197,4 +1201,18 @@ func enumHooks(w *World) []*enumHook {
 	}
 	sort.Slice(out, func(i, j int) bool { return out[i].Fn.Name() < out[j].Fn.Name() })
 	return out
+}
+
+// isStructDecoder: a module function that fills a struct from a raw configuration with
+// mapstructure (it creates a mapstructure decoder, directly or in a generic instantiation).
+func isStructDecoder(f *ssa.Function) bool {
+	if f == nil || f.Blocks == nil {
+		return false
+	}
+	for _, c := range callsIn(f) {
+		if strings.HasSuffix(callName(c.Common()), "mapstructure/v2.NewDecoder") {
+			return true
+		}
+	}
+	return false
 }
